@@ -31,7 +31,9 @@ mkdir -p work/cov
 if [ "$MODE" = run ]; then
   [ -f harness/Cargo.lock ] || cp /repo/Cargo.lock harness/
   echo "coverage: instrumented build -> harness/target-cov"
-  ( cd harness && CARGO_TARGET_DIR="$ROOT/harness/target-cov" RUSTFLAGS="-C instrument-coverage" \
+  # LLVM_PROFILE_FILE=/dev/null: the build scripts (smoltcp's build.rs runs with cwd=/repo) are instrumented too and
+  # would otherwise drop default_*.profraw files into /repo's working tree
+  ( cd harness && LLVM_PROFILE_FILE=/dev/null CARGO_TARGET_DIR="$ROOT/harness/target-cov" RUSTFLAGS="-C instrument-coverage" \
       cargo +nightly build --offline --quiet --bins -j "$JOBS" ) > work/cov/build.log 2>&1 \
     || { tail -30 work/cov/build.log; echo "coverage: instrumented build failed"; exit 1; }
 fi
